@@ -416,3 +416,42 @@ def needed_from(g, roots):
         if c['k'] == 'sp':
             stack.append(c['anchor'])
     return seen
+
+
+def make_cyclic(seed, n_cells=8):
+    """An acyclic workbook with 1-3 back references injected: unguarded, behind
+    an IF guard (selected or not), behind IFERROR's fallback, through a range
+    or through a name."""
+    g = make(seed, n_cells=n_cells, features=['names'])
+    rnd = random.Random(seed * 7919 + 13)
+    forms = [i for i in g.order if g.cells[i]['k'] == 'f']
+    if not forms:
+        return g
+    consts = [i for i in g.order if g.cells[i]['k'] == 'c' and g.cells[i]['v']['k'] == 'n']
+    for _ in range(rnd.randint(1, 3)):
+        src = rnd.choice(forms)
+        k = g.order.index(src)
+        later = [i for i in g.order[k:] if g.cells[i]['k'] == 'f']   # itself or a later formula
+        tgt = rnd.choice(later)
+        orig = g.cells[src]['e']
+        r = rnd.random()
+        back = ['ref', tgt]
+        if r < 0.15:
+            b, s, c, row = parse_id(tgt)
+            back = ['fn', 'SUM', [['rng', b, s, c, row, c, min(g.grid[1], row + 1)]]]
+        elif r < 0.25 and parse_id(tgt)[0] == NAME_BOOK and parse_id(src)[0] == NAME_BOOK \
+                and len(g.names) < 3:
+            nm = ['ALPHA_X', 'BETA_Y', 'GAMMA_Z'][len(g.names)]
+            g.names[nm] = ['ref', tgt]
+            back = ['name', nm]
+        q = rnd.random()
+        if q < 0.4 or not consts:
+            e = ['op', '+', orig, back]
+        elif q < 0.8:
+            guard = ['op', '<', ['ref', rnd.choice(consts)], ['c', norm(V.N(rnd.choice([0, 2, 4, 100])))]]
+            e = ['fn', 'IF', [guard, orig, back]] if rnd.random() < 0.5 else \
+                ['fn', 'IF', [guard, back, orig]]
+        else:
+            e = ['fn', 'IFERROR', [orig, back]]
+        g.cells[src] = {'k': 'f', 'e': e}
+    return g
